@@ -1,23 +1,173 @@
-import Mutagen.Model.Mux
+import Mutagen.Proofs.MuxBytesNet
 /-!
 # C23 — multiplexed streams deliver bytes reliably and in order
+
+The stream objects of the model carry two ghost histories (not in the Go code):
+`sent` — every byte `Stream.Write` has put on the wire, in order — and `got` —
+every byte `Stream.Read` has returned, in order. The theorems are about every
+state reachable from the initial state by any sequence of actions of
+`Model/MuxSys.lean` (API calls of both programs on any streams, background
+goroutine steps, deliveries in any interleaving) that does not contain an
+explicit `Multiplexer.Close`; by C24 such a run never loses the connection.
+All statements are per stream identifier, which is the isolation claim: what
+is read on stream `X` is related to what was written on stream `X` only.
 -/
 namespace Mutagen.Properties.C23
 open Mutagen.Model.Mux
 
-/-- `Read` returns the oldest buffered bytes, removes exactly those from the
-receive buffer, and records them in the ghost history: what was read so far
-followed by what is buffered never changes by reading. -/
-theorem read_preserves_got_buf (s : Side) (id n now : Nat) (st : Stream) (bs : List UInt8)
+/-- Single step: `Read` returns the oldest buffered bytes, removes exactly
+those from the receive buffer and appends them to the history. -/
+theorem read_returns_buffer_prefix (s : Side) (id n now : Nat) (st : Stream) (bs : List UInt8)
     (h : s.streams id = some st) (hr : (s.read id n now).2 = .data bs) :
-    ∃ st', (s.read id n now).1.streams id = some st' ∧
-      st'.got ++ st'.recvBuf = st.got ++ st.recvBuf ∧ st'.got = st.got ++ bs := by
-  simp only [Side.read, h] at hr ⊢
-  repeat (split at hr <;> try simp at hr)
-  subst hr
-  rename_i h1 h2 h3 h4 h5
-  simp only [h1, h2, h3, h4, h5]
-  simp only [Bool.false_eq_true, ↓reduceIte, ne_eq, not_false_eq_true]
-  split <;> simp [Side.setStream, Side.enqIncr] <;> (try split) <;> simp [List.append_assoc]
+    bs = st.recvBuf.take n ∧
+    ∃ st', (s.read id n now).1.streams id = some st' ∧ st'.recvBuf = st.recvBuf.drop n ∧
+      st'.got = st.got ++ bs := by
+  unfold Side.read at hr ⊢
+  simp only [h] at hr ⊢
+  by_cases h1 : st.closed = true
+  · simp [h1] at hr
+  · simp only [h1, Bool.false_eq_true, ↓reduceIte] at hr ⊢
+    by_cases h2 : s.closedMux = true
+    · simp [h2] at hr
+    · simp only [h2, Bool.false_eq_true, ↓reduceIte] at hr ⊢
+      by_cases h3 : st.readExpired = true
+      · simp [h3] at hr
+      · simp only [h3, Bool.false_eq_true, ↓reduceIte] at hr ⊢
+        by_cases h4 : (st.readTimer.any fun x => decide (x ≤ now)) = true
+        · simp [h4] at hr
+        · simp only [h4, Bool.false_eq_true, ↓reduceIte] at hr ⊢
+          by_cases h5 : st.recvBuf = []
+          · simp only [h5, ne_eq, not_true_eq_false, ↓reduceIte] at hr
+            split at hr <;> simp at hr
+          · simp only [ne_eq, h5, not_false_eq_true, ↓reduceIte] at hr ⊢
+            have hbs : bs = st.recvBuf.take n := by
+              simp only [ReadRes.data.injEq] at hr; exact hr.symm
+            refine ⟨hbs, ?_⟩
+            split <;> simp [Side.setStream, Side.enqIncr, hbs] <;> (try split) <;> simp
+
+/-- **C23 (a).** On every stream and in both directions, the bytes read by one
+side are a prefix of the bytes written by the other side: no loss inside the
+prefix, no duplication, no reordering, nothing from another stream. -/
+theorem stream_bytes_prefix (wa ka wb kb : Int) (ha : wa ≤ maxU64) (hb : wb ≤ maxU64)
+    (acts : List Action) (hno : ∀ a ∈ acts, ∀ w, a ≠ .muxClose w) (X : Nat) (sa sb : Stream) :
+    let n := (Net.init wa ka wb kb).run acts
+    n.a.streams X = some sa → n.b.streams X = some sb → sb.got <+: sa.sent ∧ sa.got <+: sb.sent := by
+  intro n hsa hsb
+  obtain ⟨_, _, hbi⟩ := reach_all _ ⟨rfl, rfl⟩ (InvN.init wa ka wb kb ha hb) (BInv.init wa ka wb kb) acts hno
+  have h1 := hbi.ab X sa.bview sb.bview (bviewAt_of hsa) (bviewAt_of hsb)
+  have h2 := hbi.ba X sb.bview sa.bview (bviewAt_of hsb) (bviewAt_of hsa)
+  simp only [Stream.bview] at h1 h2
+  constructor
+  · cases hr : sb.registered with
+    | true =>
+      have := h1.1 hr
+      rw [← this, List.append_assoc]; exact List.prefix_append _ _
+    | false => exact List.IsPrefix.trans (List.prefix_append _ _) (h1.2 hr)
+  · cases hr : sa.registered with
+    | true =>
+      have := h2.1 hr
+      rw [← this, List.append_assoc]; exact List.prefix_append _ _
+    | false => exact List.IsPrefix.trans (List.prefix_append _ _) (h2.2 hr)
+
+/-- **C23 (a'), exact accounting.** While the reader's stream is registered,
+what it has read, followed by what is buffered, followed by the data in flight
+is exactly what the peer has written. -/
+theorem stream_bytes_accounting (wa ka wb kb : Int) (ha : wa ≤ maxU64) (hb : wb ≤ maxU64)
+    (acts : List Action) (hno : ∀ a ∈ acts, ∀ w, a ≠ .muxClose w) (X : Nat) (sa sb : Stream) :
+    let n := (Net.init wa ka wb kb).run acts
+    n.a.streams X = some sa → n.b.streams X = some sb →
+    (sb.registered = true → sb.got ++ sb.recvBuf ++ dataCat X n.ab = sa.sent) ∧
+    (sa.registered = true → sa.got ++ sa.recvBuf ++ dataCat X n.ba = sb.sent) := by
+  intro n hsa hsb
+  obtain ⟨_, _, hbi⟩ := reach_all _ ⟨rfl, rfl⟩ (InvN.init wa ka wb kb ha hb) (BInv.init wa ka wb kb) acts hno
+  have h1 := hbi.ab X sa.bview sb.bview (bviewAt_of hsa) (bviewAt_of hsb)
+  have h2 := hbi.ba X sb.bview sa.bview (bviewAt_of hsb) (bviewAt_of hsa)
+  simp only [Stream.bview] at h1 h2
+  exact ⟨h1.1, h2.1⟩
+
+/-- **C23 (b).** A reader (holding the handle of the stream) sees end-of-stream
+only after the peer closed the stream for writing (`CloseWrite` or `Close`),
+and only after it has read every byte the peer wrote. Stated for side `a`
+reading; `eof_after_all_data_b` is the mirror image. -/
+theorem eof_after_all_data_a (wa ka wb kb : Int) (ha : wa ≤ maxU64) (hb : wb ≤ maxU64)
+    (acts : List Action) (hno : ∀ a ∈ acts, ∀ w, a ≠ .muxClose w) (X k now : Nat) :
+    let n := (Net.init wa ka wb kb).run acts
+    n.a.hasHandle X = true → (n.a.read X k now).2 = .eof →
+    ∃ sa sb, n.a.streams X = some sa ∧ n.b.streams X = some sb ∧ sb.closedWrite = true ∧ sa.got = sb.sent := by
+  intro n hh heof
+  obtain ⟨_, hi, hbi⟩ := reach_all _ ⟨rfl, rfl⟩ (InvN.init wa ka wb kb ha hb) (BInv.init wa ka wb kb) acts hno
+  obtain ⟨sa0, hsa0, hest⟩ := (hasHandle_iff n.a X).mp hh
+  by_cases ho : n.a.isOutbound X = true
+  · -- `a` opened the stream: `a` is the opener, data flows acceptor → opener
+    have hp := hi.inv.per_a X ho
+    obtain ⟨sp, hsp, _⟩ := hp.est_o sa0 hsa0 hest
+    refine eof_generic (hbi.ba X) (hbi.ra X) heof ?_ ?_
+    · intro Rs hRs hrcw
+      obtain ⟨Ss, hSs, hcw, _⟩ := hp.flowPO.cw_src_r Rs hRs hrcw
+      refine ⟨⟨Ss, hSs, hcw⟩, dataCat_nil_of_filter fun m hm => ?_⟩
+      exact (hp.flowPO.rcw Rs hRs hrcw m hm).2
+    · intro Rs hRs hrc
+      have hcl := hp.close_src_p_r Rs hRs hrc sp hsp
+      refine ⟨⟨sp, hsp, (hp.flowPO.closed_clean sp hsp hcl).1⟩, dataCat_nil_of_filter_about ?_⟩
+      exact hp.flowPO.rc Rs hRs hrc
+  · -- `b` opened the stream: `a` is the acceptor, data flows opener → acceptor
+    have hob : n.b.isOutbound X = true := by rw [outbound_xor hi.inv]; simpa using ho
+    have hp := hi.inv.per_b X hob
+    refine eof_generic (hbi.ba X) (hbi.ra X) heof ?_ ?_
+    · intro Rs hRs hrcw
+      obtain ⟨Ss, hSs, hcw, _⟩ := hp.flowOP.cw_src_r Rs hRs hrcw
+      refine ⟨⟨Ss, hSs, hcw⟩, dataCat_nil_of_filter fun m hm => ?_⟩
+      exact (hp.flowOP.rcw Rs hRs hrcw m hm).2
+    · intro Rs hRs hrc
+      obtain ⟨Ss, hSs, hcl⟩ := hp.close_src_o_r Rs hRs hrc
+      refine ⟨⟨Ss, hSs, (hp.flowOP.closed_clean Ss hSs hcl).1⟩, dataCat_nil_of_filter_about ?_⟩
+      exact hp.flowOP.rc Rs hRs hrc
+
+theorem eof_after_all_data_b (wa ka wb kb : Int) (ha : wa ≤ maxU64) (hb : wb ≤ maxU64)
+    (acts : List Action) (hno : ∀ a ∈ acts, ∀ w, a ≠ .muxClose w) (X k now : Nat) :
+    let n := (Net.init wa ka wb kb).run acts
+    n.b.hasHandle X = true → (n.b.read X k now).2 = .eof →
+    ∃ sb sa, n.b.streams X = some sb ∧ n.a.streams X = some sa ∧ sa.closedWrite = true ∧ sb.got = sa.sent := by
+  intro n hh heof
+  obtain ⟨_, hi, hbi⟩ := reach_all _ ⟨rfl, rfl⟩ (InvN.init wa ka wb kb ha hb) (BInv.init wa ka wb kb) acts hno
+  obtain ⟨sb0, hsb0, hest⟩ := (hasHandle_iff n.b X).mp hh
+  by_cases ho : n.b.isOutbound X = true
+  · have hp := hi.inv.per_b X ho
+    obtain ⟨sp, hsp, _⟩ := hp.est_o sb0 hsb0 hest
+    refine eof_generic (hbi.ab X) (hbi.rb X) heof ?_ ?_
+    · intro Rs hRs hrcw
+      obtain ⟨Ss, hSs, hcw, _⟩ := hp.flowPO.cw_src_r Rs hRs hrcw
+      refine ⟨⟨Ss, hSs, hcw⟩, dataCat_nil_of_filter fun m hm => ?_⟩
+      exact (hp.flowPO.rcw Rs hRs hrcw m hm).2
+    · intro Rs hRs hrc
+      have hcl := hp.close_src_p_r Rs hRs hrc sp hsp
+      refine ⟨⟨sp, hsp, (hp.flowPO.closed_clean sp hsp hcl).1⟩, dataCat_nil_of_filter_about ?_⟩
+      exact hp.flowPO.rc Rs hRs hrc
+  · have hoa : n.a.isOutbound X = true := by
+      have := outbound_xor hi.inv X
+      cases hh' : n.a.isOutbound X with
+      | true => rfl
+      | false => rw [hh'] at this; exact absurd (by simpa using this) ho
+    have hp := hi.inv.per_a X hoa
+    refine eof_generic (hbi.ab X) (hbi.rb X) heof ?_ ?_
+    · intro Rs hRs hrcw
+      obtain ⟨Ss, hSs, hcw, _⟩ := hp.flowOP.cw_src_r Rs hRs hrcw
+      refine ⟨⟨Ss, hSs, hcw⟩, dataCat_nil_of_filter fun m hm => ?_⟩
+      exact (hp.flowOP.rcw Rs hRs hrcw m hm).2
+    · intro Rs hRs hrc
+      obtain ⟨Ss, hSs, hcl⟩ := hp.close_src_o_r Rs hRs hrc
+      refine ⟨⟨Ss, hSs, (hp.flowOP.closed_clean Ss hSs hcl).1⟩, dataCat_nil_of_filter_about ?_⟩
+      exact hp.flowOP.rc Rs hRs hrc
+
+/-- Non-vacuity: a run in which `a` writes three bytes and half-closes; `b`
+reads two, then one, then sees EOF — having read exactly what was written. -/
+example :
+    let n := (Net.init 8 2 8 2).run
+      [.act .a .openStream, .deliver .b, .act .b (.accept false), .deliver .a,
+       .act .a (.writeChunk 1 [7, 8, 9]), .act .a (.closeWrite 1), .act .a (.flushCW 1),
+       .deliver .b, .deliver .b, .act .b (.read 1 2 0), .act .b (.read 1 5 0)]
+    (n.b.read 1 4 0).2 = .eof ∧ (n.b.streams 1).map (·.got) = some [7, 8, 9] ∧
+      (n.a.streams 1).map (·.sent) = some [7, 8, 9] := by
+  refine ⟨rfl, rfl, rfl⟩
 
 end Mutagen.Properties.C23
